@@ -124,11 +124,12 @@ def run(F, chk):
 
 def pipe_close_rule(F, chk):
     """R-C18-f: Pipe::check_connections decides whether a half-closed relay may be torn down. Necessary condition of
-    `end-of-stream is passed on only after all pending bytes were delivered`: (1) the two in-flight summaries read the
-    buffered bytes, the readiness and the splice backlog of their direction; (2) the per-(frontend, backend) status arms
-    consult nothing but those summaries (no private notion of `in flight`); (3) whenever the receiving side of a direction
-    can still be written (status Normal or WriteOpen) while the producing side is finished (WriteOpen or Closed), the arm
-    depends on that direction's summary or is constantly `keep`."""
+    `end-of-stream is passed on only after all pending bytes were delivered`: in every (frontend status, backend status) arm
+    where the receiving side of a direction can still be written (Normal or WriteOpen) while the producing side is finished
+    (WriteOpen or Closed), the verdict is either constantly `keep` or depends on that direction's pending-data evidence:
+    the bytes buffered in the proxy (`<side>_buffer.available_data()`), the producer's readiness and the kernel splice backlog
+    (`splice_*_pending()`). Dependence is structural: the arm reads those itself, or reads a local whose computation (the
+    blocks between the nearest common dominator of its assignments and those assignments) reads them. No local names."""
     r = chk.rule("R-C18-f", "T7+T12", "a half-closed pipe is kept while bytes are pending toward a writable side", floor=10)
     cands = [p for p in F.paths() if p.startswith("sozu_lib::protocol::pipe::Pipe") and p.endswith("::check_connections")]
     if not r.require(cands, "Pipe::check_connections not found"):
@@ -137,51 +138,68 @@ def pipe_close_rule(F, chk):
     r.fn(b.path)
     CS = "sozu_lib::protocol::pipe::ConnectionStatus"
     dv = F.variant_discr(CS)
-    names = {"request_is_inflight": set(b.named_local("request_is_inflight")), "response_is_inflight": set(b.named_local("response_is_inflight"))}
-    if not r.require(all(names.values()), "check_connections: request_is_inflight / response_is_inflight locals not found"):
-        return
-    # (1) definitions: the blocks that lead to an assignment of the summary and not to one of the summary computed before it
-    def def_blocks(nm):
-        return {d[0] for l in names[nm] for d in b.defs().get(l, [])}
-    def backward(targets):
-        seen, todo = set(targets), list(targets)
-        while todo:
-            x = todo.pop()
-            for p_ in b.pred()[x]:
-                if p_ not in seen and p_ in live:
-                    seen.add(p_); todo.append(p_)
-        return seen
     live = set(b.reachable())
-    order = sorted(names, key=lambda n: min(def_blocks(n) or [10**9]))
-    def back_region(nm):
-        reg = backward(def_blocks(nm) & live)
-        i = order.index(nm)
-        for earlier in order[:i]:
-            reg -= backward(def_blocks(earlier) & live)
-        return reg
-    for nm, buf, ready, splice in (("request_is_inflight", "frontend_buffer", "frontend_readiness", "splice_in_pending"),
-                                   ("response_is_inflight", "backend_buffer", "backend_readiness", "splice_out_pending")):
-        flds, callees = set(), set()
-        region = back_region(nm)
-        for bi in sorted(region):
+    dom = b.dominators()
+    pred, succ = b.pred(), b.succ()
+
+    def evidence(blocks):
+        flds, calls = set(), set()
+        for bi in blocks:
             for s2 in b.blocks[bi]["s"]:
                 rv = s2.get("rv")
-                if rv and rv["k"] in ("ref", "use"):
-                    pl = rv.get("pl") or op_place(rv.get("a", {}))
+                if not rv:
+                    continue
+                for o in [rv.get("a"), rv.get("b")] + rv.get("ops", []):
+                    pl = op_place(o) if o else None
                     if pl is not None:
                         flds |= {f for _, _, f in proj_fields(pl)}
+                if rv["k"] in ("ref", "raw"):
+                    flds |= {f for _, _, f in proj_fields(rv["pl"])}
             t = b.blocks[bi]["t"]
             if t["k"] == "call":
-                callees.add(callee_of(t).split("::")[-1])
-        ok = buf in flds and ready in flds and splice in callees and "available_data" in callees
-        key = "%s reads buffer+readiness+splice" % nm
-        if ok:
-            r.ok(key, b.where(), "%s, %s.event, %s()" % (buf, ready, splice), nontrivial=False)
-        else:
-            r.violation(key, b.where(), "%s no longer accounts for %s" % (nm, [x for x, present in ((buf, buf in flds), (ready, ready in flds), (splice, splice in callees)) if not present]))
-    # arms
+                calls.add(callee_of(t).split("::")[-1])
+        return flds, calls
+
+    memo = {}
+    def support(l):
+        """blocks that compute local l: from the nearest common dominator of its assignments (extended upwards over
+        straight-line predecessors) to the assignments"""
+        if l in memo:
+            return memo[l]
+        memo[l] = set()
+        dbs = {d[0] for d in b.defs().get(l, []) if d[0] in live}
+        if not dbs:
+            return memo[l]
+        common = set.intersection(*[dom[d] for d in dbs])
+        head = max(common, key=lambda x: len(dom[x]))
+        while len([p_ for p_ in pred[head] if p_ in live]) == 1:
+            head = [p_ for p_ in pred[head] if p_ in live][0]
+        fwd = b.reach_from([head])
+        back, todo = set(dbs), list(dbs)
+        while todo:
+            x = todo.pop()
+            for p_ in pred[x]:
+                if p_ in live and p_ not in back and p_ in fwd:
+                    back.add(p_); todo.append(p_)
+        reg = (fwd & back) | {head}
+        memo[l] = reg
+        # operands of the region may themselves be computed locals
+        extra = set()
+        for bi in list(reg):
+            for s2 in b.blocks[bi]["s"]:
+                rv = s2.get("rv")
+                if not rv:
+                    continue
+                for o in [rv.get("a"), rv.get("b")] + rv.get("ops", []):
+                    pl = op_place(o) if o else None
+                    if pl is not None and pl_local(pl) != l and pl_local(pl) > b.argc:
+                        if len(b.defs().get(pl_local(pl), [])) > 1:
+                            extra |= support(pl_local(pl))
+        memo[l] = reg | extra
+        return memo[l]
+
     first = None
-    for bi in sorted(b.reachable()):
+    for bi in sorted(live):
         t = b.blocks[bi]["t"]
         if t["k"] == "switch":
             l = op_local(t["op"])
@@ -192,6 +210,8 @@ def pipe_close_rule(F, chk):
     if not r.require(first, "check_connections: no switch on ConnectionStatus"):
         return
     inv = {v: k for k, v in dv.items()}
+    DIRS = {"response": ("backend_buffer", "backend_readiness", "splice_out_pending"),
+            "request": ("frontend_buffer", "frontend_readiness", "splice_in_pending")}
     for v1, t1 in first[1]["ts"]:
         fs = inv[int(v1)]
         t2 = b.blocks[t1]["t"]
@@ -200,48 +220,43 @@ def pipe_close_rule(F, chk):
             continue
         for v2, arm in t2["ts"]:
             bs = inv[int(v2)]
-            region = b.reach_from([arm])
-            reads, consts, selfreads = set(), set(), []
+            region = set(b.reach_from([arm]))
+            blocks = set(region)
+            consts = set()
             for bi in region:
                 for s2 in b.blocks[bi]["s"]:
                     rv = s2.get("rv")
                     if not rv:
                         continue
-                    ops = [rv.get("a"), rv.get("b")] + rv.get("ops", [])
-                    for o in ops:
+                    for o in [rv.get("a"), rv.get("b")] + rv.get("ops", []):
                         if not o:
                             continue
                         pl = op_place(o)
                         if pl is None:
                             if s2.get("lhs") == 0 and op_const(o) is not None:
                                 consts.add(op_const(o))
-                            continue
-                        for nm, ls in names.items():
-                            if pl_local(pl) in ls:
-                                reads.add(nm)
-                        if pl_local(pl) == 1 or proj_fields(pl):
-                            selfreads.append(bi)
-                    if rv["k"] in ("ref", "raw") and (pl_local(rv["pl"]) == 1):
-                        selfreads.append(bi)
+                        else:
+                            if s2.get("lhs") == 0:
+                                consts.add("computed")
+                            if pl_local(pl) > b.argc:
+                                blocks |= support(pl_local(pl))
                 t = b.blocks[bi]["t"]
                 if t["k"] == "switch":
                     l = op_local(t["op"])
-                    for nm, ls in names.items():
-                        if l in ls or (l is not None and b.slice_back([l])["locals"] & ls):
-                            reads.add(nm)
-                if t["k"] == "call":
-                    selfreads.append(bi)
-            key = "arm (%s, %s)" % (fs, bs)
-            if selfreads:
-                r.violation(key + "|private in-flight notion", b.where(selfreads[0]), "the (%s, %s) arm evaluates session state of its own instead of the request/response in-flight summaries: bytes already buffered toward the peer are not counted and the relay is torn down before they are delivered" % (fs, bs))
-                continue
+                    if l is not None and l > b.argc:
+                        blocks |= support(l)
+                if t["k"] == "call" and t.get("dest") == 0:
+                    consts.add("computed")
+            flds, calls = evidence(blocks)
+            have = {d for d, (buf, rd, sp) in DIRS.items() if buf in flds and rd in flds and sp in calls and "available_data" in calls}
             need = []
             if fs in ("Normal", "WriteOpen") and bs in ("WriteOpen", "Closed"):
-                need.append("response_is_inflight")
+                need.append("response")
             if bs in ("Normal", "WriteOpen") and fs in ("WriteOpen", "Closed"):
-                need.append("request_is_inflight")
-            missing = [n for n in need if n not in reads and consts != {1}]
-            if missing:
-                r.violation(key, b.where(arm), "the (%s, %s) arm can report `close` without consulting %s" % (fs, bs, missing))
+                need.append("request")
+            key = "arm (%s, %s)" % (fs, bs)
+            missing = [n for n in need if n not in have]
+            if missing and consts != {1}:
+                r.violation(key, b.where(arm), "the (%s, %s) arm can report `close` without consulting all pending-data evidence of the %s direction (%s): bytes still buffered toward a writable peer are lost and it sees a clean end-of-stream" % (fs, bs, "/".join(missing), ", ".join("+".join(DIRS[m]) for m in missing)))
             else:
-                r.ok(key, b.where(arm), "reads %s%s" % (sorted(reads), " const %s" % sorted(consts) if consts else ""), nontrivial=bool(need))
+                r.ok(key, b.where(arm), "depends on %s%s" % (sorted(have) or "nothing", " returns %s" % sorted(map(str, consts)) if consts else ""), nontrivial=bool(need))
